@@ -124,6 +124,24 @@ int simfs_live_temp_files(void) { int n = 0; for (int i = 0; i < nnodes; i++) if
 int simfs_fd_mode(int fd) { return (fd >= FS_FD_BASE && fd < FS_FD_MAX && fsfd[fd - FS_FD_BASE].used) ? nodes[fsfd[fd - FS_FD_BASE].node].mode : -1; }
 
 /* ---- libc entry points ---- */
+/* what the fault script did to each fopen(), by path and in order: a reference that wants to follow the library asks "what happened the
+   j-th time THIS file was opened", not "what happened to the k-th open of the run" -- how many opens a parse makes, and in which order,
+   is the library's business */
+#define OPENLOG_MAX 1200
+static struct { char path[160]; int how; } openlog[OPENLOG_MAX];
+static int nopenlog;
+void simfs_openlog_reset(void) { nopenlog = 0; }
+static void openlog_add(const char *path, int how) { if (nopenlog < OPENLOG_MAX) { char np[PATH_MAX]; norm(path, np); snprintf(openlog[nopenlog].path, sizeof(openlog[nopenlog].path), "%s", np); openlog[nopenlog].how = how; nopenlog++; } }
+/* outcome of the j-th (0-based) fopen of a file whose normalised path ends in /name: 0 scripted failure, 1 nothing scripted, 2 scripted "opens but unreadable"; -1 never opened */
+int simfs_openlog_get(const char *name, int j)
+{
+    size_t nl = strlen(name);
+    for (int i = 0; i < nopenlog; i++) {
+        size_t pl = strlen(openlog[i].path);
+        if (pl >= nl && !strcmp(openlog[i].path + pl - nl, name) && (pl == nl || openlog[i].path[pl - nl - 1] == '/') && j-- == 0) return openlog[i].how;
+    }
+    return -1;
+}
 FILE *sim_fopen(const char *path, const char *mode)
 {
     int i, f;
@@ -134,8 +152,9 @@ FILE *sim_fopen(const char *path, const char *mode)
     if (f >= 0 && F_OUT(f) != FO_FULL) {
         static const int en[FO_NMAX] = { [FO_ENOENT] = ENOENT, [FO_EMFILE] = EMFILE, [FO_EACCES] = EACCES, [FO_EIO] = EIO };
         int out = F_OUT(f);
-        if (en[out]) { fault_fired(FC_OPEN, out); simfs_fopen_failed++; tr_printf("fopen %s -> %s", path, fo_names[out]); errno = en[out]; return NULL; }
+        if (en[out]) { fault_fired(FC_OPEN, out); simfs_fopen_failed++; tr_printf("fopen %s -> %s", path, fo_names[out]); openlog_add(path, 0); errno = en[out]; return NULL; }
     }
+    openlog_add(path, f >= 0 && F_OUT(f) == FO_FULL && F_PARAM(f) == 1 ? 2 : 1);
     if (simfd_open_streams() >= SIM_OPEN_MAX) {      /* per-process descriptor limit, as a real kernel has */
         simfs_fopen_failed++; fault_fired(FC_OPEN, FO_EMFILE); tr_printf("fopen %.80s -> EMFILE(limit)", path); errno = EMFILE; return NULL;
     }
